@@ -3,6 +3,7 @@
 //!   tfmc run <PROPERTY> --tier quick|thorough --evidence <file> --replays <dir> --known <file>
 //!   tfmc replay <replay.json>
 mod api;
+mod fx;
 mod grid;
 mod pairs;
 mod props;
